@@ -44,7 +44,7 @@ def _one(item):
                 arr = big[::-2, :, 1:-2]
             writers.numpy_to_sgz(p, arr, writers.rate_arg(rate), bs)
             src = cube
-        elif route in ('segy', 'segy-iops', 'segy-ibm', 'segy-reuse'):
+        elif route in ('segy', 'segy-iops', 'segy-ibm', 'segy-reuse', 'segy-strip', 'segy-thorough'):
             sgy = os.path.join(d, f'h{k}.sgy')
             inputs.write_segy(sgy, cube, np.arange(shape[0]) + 1, np.arange(shape[1]) + 1, np.arange(shape[2]) * 4.0,
                               fmt=1 if route == 'segy-ibm' else 5)
@@ -58,13 +58,14 @@ def _one(item):
                         cv.run(p, bits_per_voxel=writers.rate_arg(rate), blockshape=bs)
                 os.remove(p + '.first')
             else:
-                writers.segy_to_sgz(sgy, p, writers.rate_arg(rate), bs, reduce_iops=(route == 'segy-iops'))
+                writers.segy_to_sgz(sgy, p, writers.rate_arg(rate), bs, reduce_iops=(route == 'segy-iops'),
+                                    header_detection={'segy-strip': 'strip', 'segy-thorough': 'thorough'}.get(route, 'heuristic'))
         else:   # 2d
             sgy = os.path.join(d, f'h{k}.sgy')
             hdrs = [{segyio.TraceField.CDP: t + 1, segyio.TraceField.CDP_X: 10 * t} for t in range(shape[0])]
             inputs.write_segy_traces(sgy, cube, np.arange(shape[1]) * 4.0, hdrs)
             src = cube
-            writers.segy_to_sgz(sgy, p, writers.rate_arg(rate), bs)
+            writers.segy_to_sgz(sgy, p, writers.rate_arg(rate), bs, header_detection={'2d-strip': 'strip', '2d-exhaustive': 'exhaustive'}.get(route, 'heuristic'))
         h = stored_hash(p)
         out = {'hash': h, 'sha1': audit.sha1_of_traces(src)}
         if par.G.get('reblock') and route == 'numpy' and rate == 2 and bs == (4, 4, -1):
@@ -105,6 +106,19 @@ def plan(run):
     for shape, rate, bs in (((5, 6, 70), 16, (4, 4, -1)), ((9, 4, 33), 32, (8, 8, 16)), ((6, 8, 64), 32, (4, 4, -1)), ((9, 9, 9), 32, (16, 16, 4))):
         P.append(('numpy-F', shape, rate, bs, None))
         P.append(('numpy-view', shape, rate, bs, None))
+    # every header-detection mode (the hash does not depend on it)
+    for route in ('segy-strip', 'segy-thorough'):
+        P.append((route, (5, 6, 70), 16, None, None))
+        P.append((route, (9, 4, 33), 32, (8, 8, 16), None))
+    for route in ('2d-strip', '2d-exhaustive'):
+        P.append((route, (9, 70), 8, (1, 4, -1), None))
+    # sample counts that are an exact multiple of the block length (no sample padding), 2-D and 3-D
+    for shape, rate, bs in (((9, 128), 32, (1, 8, 128)), ((5, 256), 16, (1, 16, -1)), ((12, 64), 32, (1, 16, 64)), ((4, 512), 16, (1, 4, -1))):
+        P.append(('2d', shape, rate, bs, None))
+    for shape, rate, bs in (((5, 6, 32), 32, (8, 8, 16)), ((4, 5, 128), 16, None), ((9, 9, 8), 32, (16, 16, 4))):
+        for route in ('numpy', 'segy', 'segy-iops'):
+            if not (route == 'numpy' and bs is None):
+                P.append((route, shape, rate, bs, None))
     shapes2 = [(9, 70), (4, 8), (21, 33), (2, 2)] if quick else [(9, 70), (4, 8), (21, 33), (2, 2), (16, 64), (17, 65), (33, 300)]
     for shape in shapes2:
         for rate, bs in ((8, (1, 4, -1)), (16, (1, 16, -1)), (4, None), (32, (1, 8, 128))):
